@@ -51,30 +51,47 @@ def em_norm(ctx: Ctx):
     rp = analyze(model, fp, merge=False)        # small function: keep every path apart (rootedness is a two-test condition)
     ctx.functions.add(fp.qual)
     path = ("param", fp.params[0])
-    rooted = ("cmp", "Eq", ("sub", path, ("const", 0)), ("const", "/"))
+    split = ("call", ("attr", path, "split"), (("const", "/"),), ())
+    rest = ("slice", ("const", 1), ("const", None), ("const", None))
+    # two ways of saying "the path is rooted": its first character is '/', or its first '/'-segment is empty (and there
+    # is more than one segment, i.e. the path is not empty)
+    by_char = ("cmp", "Eq", ("sub", path, ("const", 0)), ("const", "/"))
+    by_seg = ("cmp", "Eq", ("sub", split, ("const", 0)), ("const", ""))
+    several = ("cmp", "Gt", ("call", ("builtin", "len"), (split,), ()), ("const", 1))
+
+    def rooted(f):
+        if truth(by_char, f) is True and truth(path, f) is not False:
+            return True
+        if truth(by_seg, f) is True and truth(several, f) is True:
+            return True
+        if truth(path, f) is False or truth(by_char, f) is False:
+            return False
+        if truth(by_seg, f) is False or truth(several, f) is False:
+            return False
+        return None
+
     for s, v, node in rp.returns:
         ctx.instance(rule)
-        parts = flatten(v)          # any spelling of  [ "/" ] + "/".join(resolver(<text>.split("/")))
+        parts = flatten(v)          # any spelling of  [ "/" ] + "/".join(resolver(<segments>))
         prefix = ""
         if parts and parts[0][0] == "lit":
             prefix, parts = parts[0][1], parts[1:]
         body = parts[0][1] if len(parts) == 1 and parts[0][0] == "val" else None
-        text = None
+        segs = None
         if body is not None and body[0] == "call" and body[1] == ("attr", ("const", "/"), "join") and len(body[2]) == 1:
             c = body[2][0]
             if c[0] == "call" and c[1][0] == "global" and c[1][2] == "normalize_path_segments" and len(c[2]) == 1:
-                sp = c[2][0]
-                if sp[0] == "call" and sp[1][0] == "attr" and sp[1][2] == "split" and sp[2] == (("const", "/"),):
-                    text = sp[1][1]
-        if text is None:
-            ok = False
-        elif prefix == "/":
-            # the root is kept for a rooted path and the resolver sees the text after it
-            ok = text == ("sub", path, ("slice", ("const", 1), ("const", None), ("const", None))) and truth(rooted, s.facts) is True
-        elif prefix == "":
-            ok = text == path and all(truth(path, f) is False or truth(rooted, f) is False for f in alternatives(s.facts, [path]))
+                segs = c[2][0]
+        if segs is None or prefix not in ("", "/"):
+            raise AnalysisError(f"_path.normalize_path: return value {show(v)[:80]} is not [root] + '/'.join(resolver(segments)) "
+                                "(unknown idiom)")
+        is_rooted = rooted(s.facts)
+        if prefix == "/":
+            # the root is kept for a rooted path and the resolver sees the segments after it
+            after_root = segs in (("call", ("attr", ("sub", path, rest), "split"), (("const", "/"),), ()), ("sub", split, rest))
+            ok = is_rooted is True and after_root
         else:
-            ok = False
+            ok = is_rooted is False and segs == split
         ctx.ob(rule, fp.qual, f"return {show(v)[:70]}", ok,
                "normalize_path must return root-prefix + '/'.join(resolver(path.split('/'))) with the root kept only for rooted paths",
                where(fp, node), sample="prefix + '/'.join(normalize_path_segments(path.split('/')))")
@@ -181,6 +198,11 @@ def flag_accumulates(ctx: Ctx):
             dot_srcs += [t for t in srcs if t[0] == "const" and t[1] in (True, 1) and
                          any(fv is True and is_dot(k) for f in r.phi_facts.get((lid, name, t), ()) for k, fv in f.items())]
             if not dot_srcs:
+                continue
+            # loop-carried means the value of a previous iteration is read somewhere (in the loop or after it); a variable
+            # that every iteration assigns before using it is a per-iteration temporary, not a flag
+            if not any(x == phi for e in r.events for val in e.data.values()
+                       if isinstance(val, tuple) and val and isinstance(val[0], str) for x in walk(val)):
                 continue
             n += 1
             ctx.instance(rule)
